@@ -406,6 +406,10 @@ class VgiAccessLogFormatter(VgiJsonFormatter):
             "error_type": obj.get("error_type", ""),
             "truncated": "record_too_large",
         }
+        if "stream_id" in obj:
+            # Required on every record of a stream call, and what ties the
+            # records of one stream together.
+            sentinel["stream_id"] = obj["stream_id"]
         if sentinel["status"] == "error":
             err = obj.get("error_message")
             sentinel["error_message"] = err if isinstance(err, str) and err else "record_too_large"
